@@ -537,6 +537,9 @@ impl<'a> GeneratorState<'a> {
         if let Some(f) = &self.current_function {
             let code: &mut AssemblyCode = self.functions_code.get_mut(f).unwrap();
             code.append_inline(s.to_string(), size);
+            // Inline assembly may leave anything in the flags
+            self.flags = FlagsState::Unknown;
+            self.carry_flag_ok = false;
         }
         Ok(())
     }
